@@ -40,6 +40,7 @@ claim("C17", "model_checking", "GraphModel.tla: residual removals as a state var
 claim("C18", "model_checking", "Env.tla: legal decisions, declared spaces and what an observation must be given dispatcher/composite/residual records; TLC proves legal decisions lie in the declared action space over the family (the [J, M] variant is refuted); real single- and multi-instance environments are driven through episodes with injected invalid decisions and every observation/reward/flag is judged by the monitor.", N_D + " Gymnasium's contains() is trusted for membership.", T_D, "5/C18")
 claim("C14", "model_checking", "Rebuild.tla: from_job_sequences as a function, model-checked for every non-flexible instance of the family and every tuple of per-machine permutations (accepted <=> acyclic, result feasible/complete/ordered); views, dict/JSON/Taillard round trips and schedule round trips of real objects compared with the definitions of JobShop.tla by the monitor; instance fingerprint unchanged in every event of every trace.", N_D + " Text encodings only up to abstract content.", T_D, "5/C14")
 claim("C15", "exploration", "Pairs of operations / scheduled operations / schedules / instances built independently from TLC-generated instances and histories; the monitor judges a==b against equality of the abstract content, symmetry, reflexivity, !=, hashes, transitivity on triples. A pure relation - the specification only contributes content equality, hence exploration level.", N_D, "TLC-generated instances/histories -> real objects compared pairwise -> TLA+ monitor (content equality)", "5/C15")
+claim("C19", "model_checking", "Generator.tla: generator objects over random streams, same seed => prefix-related outputs under every interleaving (TLC; the global-stream design is refuted); GeneratorShape.tla: WellShaped(params, instance). TLC-chosen call interleavings executed on real generators over a grid of parameter sets; every generated instance, names, iteration counts and machine coverage judged by the monitor.", N_D + " Shape half: sampled generated instances (exploration of the random stream).", T_D, "5/C19")
 
 
 def build(registered):
